@@ -62,25 +62,28 @@ Definition frac_us (ds : list ascii) : Z := num_of (firstn 6 (ds ++ chars "00000
 Definition mk_time (h m s u : Z) : option (list Z) :=
   if valid_time [h; m; s; u] then Some [h; m; s; u] else None.
 
-(* the part before the fraction; two2 = every field must have exactly two digits (ISO) *)
-Definition split_frac (s : list ascii) : list ascii * option (list ascii) :=
-  let fix go (s cur : list ascii) :=
-    match s with
-    | [] => (rev cur, None)
-    | c :: r => if (ch_eqb c "." || ch_eqb c ",")%bool then (rev cur, Some r) else go r (c :: cur)
-    end in go s [].
+(* the part before the fraction and the fraction digits (after the first point or comma) *)
+Fixpoint split_frac_aux (s cur : list ascii) : list ascii * option (list ascii) :=
+  match s with
+  | [] => (rev cur, None)
+  | c :: r => if (ch_eqb c "." || ch_eqb c ",")%bool then (rev cur, Some r) else split_frac_aux r (c :: cur)
+  end.
+Definition split_frac (s : list ascii) : list ascii * option (list ascii) := split_frac_aux s [].
 
+(* two2 = every field must have exactly two digits (ISO) *)
 Definition field_ok (two2 : bool) (f : list ascii) : bool :=
   (all_digits f && (if two2 then Nat.eqb (List.length f) 2 else (Nat.leb 1 (List.length f) && Nat.leb (List.length f) 2)))%bool.
 
+Definition drop_t (s : list ascii) : list ascii := match s with "T" :: r => r | _ => s end.
+Definition frac_ok_iso (frac : option (list ascii)) : bool :=
+  match frac with Some ds => (all_digits ds && negb (Nat.eqb (List.length ds) 0))%bool | None => true end.
+Definition frac_val (frac : option (list ascii)) : Z := match frac with Some ds => frac_us ds | None => 0 end.
+
 (* datetime.time.fromisoformat (3.12), without time zones: [T]HH[:MM[:SS[.f+]]] or [T]HH[MM[SS[.f+]]];
    None = not ISO *)
-Definition parse_time_iso (s : list ascii) : option (list Z) :=
-  let s := match s with "T" :: r => r | _ => s end in
-  let '(main, frac) := split_frac s in
-  let fr_ok := match frac with Some ds => (all_digits ds && negb (Nat.eqb (List.length ds) 0))%bool | None => true end in
-  let us := match frac with Some ds => frac_us ds | None => 0 end in
-  if negb fr_ok then None else
+Definition iso_core (main : list ascii) (frac : option (list ascii)) : option (list Z) :=
+  if negb (frac_ok_iso frac) then None else
+  let us := frac_val frac in
   match split_char ":" main with
   | [hh] =>           (* basic format *)
       if negb (all_digits hh) then None else
@@ -98,6 +101,8 @@ Definition parse_time_iso (s : list ascii) : option (list Z) :=
                     then mk_time (num_of hh 0) (num_of mm 0) (num_of ss 0) us else None
   | _ => None
   end.
+Definition parse_time_iso (s : list ascii) : option (list Z) :=
+  let '(main, frac) := split_frac (drop_t s) in iso_core main frac.
 
 (* the strptime fall-back: %H:%M, %H:%M:%S, %H:%M:%S.%f, %H:%M:%S,%f (1-2 digit fields, 1-6 fraction digits) *)
 Definition parse_time_trad (s : list ascii) : option (list Z) :=
